@@ -32,13 +32,140 @@ EXPLANATION = (
 EXPLANATION += (' R-C12-4 additionally requires both aggregation paths (with and without additional index levels) to use the verified membership predicate and no library binning. R-C12-5: the validated R-segment order reaches the distance sort of the segment transformer unchanged; the two unbounded segments tie in distance, so their processing order is the validated order.')
 EXPLANATION += (' R-C12-6: a local helper whose result is NaN-patched (.fillna) at one call site is patched or guarded by an explicit infinity test of its argument at every call site (belief-contradiction rule for the indeterminate form (1+R)/(1-R) at R = +-inf).')
 EXPLANATION += (" R-C12-4 evaluates the membership mask of the re-binning helper (after inlining its locals) as a boolean function of the position of a range relative to the class edges, for &, |, ~, operator/np comparison functions and comparison expressions; an approximate comparison (np.isclose ...) in the mask is a violation. R-C12-7: no numeric parameter (M, M2, R_goal, amplitude, meanstress ...) of a mean-stress function is used as a truth value - 0 is admissible for each of them.")
+EXPLANATION += (' R-C12-8: whatever the histogram accessor combines by position with the rows of the caller\'s matrix (A.iloc[mask(B.values)], traced through nested helpers and common row selections) is aligned with the index of the matrix first (B = B.reindex(self._obj.index)); the transformed classes come back in the row order of the broadcast.')
 ASSUMPTIONS = ["pandas IntervalIndex.get_indexer_for maps interval values to their positions",
                "1 - R_goal + M (1 + R_goal) != 0 for admissible slopes"]
 
 
 def run(ctx):
-    for r in (_r1, _r2, _r3, _r4, _r5, _r6, _r7):
+    for r in (_r1, _r2, _r3, _r4, _r5, _r6, _r7, _r8):
         ctx.attempt(r)
+
+
+def positional_pairings(fn_node):
+    """(subscript, selected object root, mask source root) for every  A.iloc[<mask built from B.values / B.to_numpy()>]  in the
+    function and its nested helpers, with A and B traced through helper parameters (call-site binding inside fn_node) and
+    through row selections that are applied to both alike (.xs, .loc) back to names / self attributes of fn_node itself"""
+    helpers = {n.name: n for n in ast.walk(fn_node) if isinstance(n, ast.FunctionDef) and n is not fn_node}
+
+    def bindings(h):
+        """parameter -> set of argument expressions at the call sites of helper h inside fn_node"""
+        out = {}
+        params = [a.arg for a in h.args.args]
+        for c in ast.walk(fn_node):
+            if isinstance(c, ast.Call) and isinstance(c.func, ast.Name) and c.func.id == h.name:
+                for p_, a_ in zip(params, c.args):
+                    out.setdefault(p_, []).append((a_, c))
+        return out
+
+    def owner(node):
+        best = fn_node
+        for h in helpers.values():
+            if any(x is node for x in ast.walk(h)):
+                if best is fn_node or any(x is h for x in ast.walk(best)):
+                    best = h
+        return best
+
+    def root(e, scope, depth=0):
+        """name of the object e is a row selection of, resolved to fn_node's own names"""
+        while True:
+            if isinstance(e, ast.Call) and isinstance(e.func, ast.Attribute) and e.func.attr in ("xs", "to_numpy", "copy", "astype"):
+                e = e.func.value
+            elif isinstance(e, ast.Attribute) and e.attr in ("values", "iloc", "loc", "array"):
+                e = e.value
+            elif isinstance(e, ast.Subscript):
+                e = e.value
+            else:
+                break
+        if is_self_attr(e):
+            return "self." + e.attr
+        if isinstance(e, ast.Name):
+            if scope is not fn_node and depth < 4:
+                # a local of the helper re-bound from a selection of itself / a parameter bound at the call sites
+                defs = [st.value for st in ast.walk(scope) if isinstance(st, ast.Assign) and len(st.targets) == 1 and
+                        isinstance(st.targets[0], ast.Name) and st.targets[0].id == e.id]
+                for d in defs:
+                    r_ = root(d, scope, depth + 1) if not (isinstance(d, ast.Name) and d.id == e.id) else None
+                    if r_ and r_ != e.id:
+                        return r_
+                b = bindings(scope).get(e.id)
+                if b:
+                    roots = {root(a_, owner(c_), depth + 1) for a_, c_ in b}
+                    if len(roots) == 1:
+                        return roots.pop()
+            return e.id
+        return None
+    out = []
+    for n in ast.walk(fn_node):
+        if isinstance(n, ast.Subscript) and isinstance(n.value, ast.Attribute) and n.value.attr == "iloc":
+            srcs = [x for x in ast.walk(n.slice) if (isinstance(x, ast.Attribute) and x.attr == "values") or
+                    (isinstance(x, ast.Call) and isinstance(x.func, ast.Attribute) and x.func.attr == "to_numpy")]
+            if not srcs:
+                continue
+            sc = owner(n)
+            a = root(n.value.value, sc)
+            for x in srcs:
+                b = root(x, sc)
+                if a and b and a != b and not any(o_[0] is n and o_[1:] == (a, b) for o_ in out):
+                    out.append((n, a, b))
+    return out
+
+
+def _r8(ctx):
+    """R-C12-8: the histogram accessor transforms the classes of the matrix and then sums the cycles of the classes that fall into
+    each result class.  Transformed ranges and cycle counts are combined BY POSITION (`counts.iloc[mask(ranges.values)]`), and
+    the transformed ranges come back in the row order of the broadcast (grouped by the first level), not in the row order of the
+    caller's matrix.  They must therefore be aligned with the matrix by label (`ranges.reindex(self._obj.index)`) before the
+    first positional use; otherwise the result depends on the order of the rows of the matrix (counts are conserved, but
+    end up in other classes)."""
+    prog = ctx.prog
+    ctx.rule("R-C12-8", floor=1, what="values combined by position with the rows of the matrix are aligned with its index first")
+    ex = ast.parse("def f(self, r):\n    def h(iv, r, o):\n        return o.iloc[(r.values > iv.left)].sum()\n"
+                   "    return [h(iv, r, self._obj) for iv in self._b]\n").body[0]
+    if [(a, b) for _, a, b in positional_pairings(ex)] != [("self._obj", "r")]:
+        raise AnalysisError("R-C12-8 built-in example not matched")
+    ci = prog.cls(MS + ":MeanstressTransformMatrix")
+    n = 0
+    for name, fi in sorted(prog.methods_of(ci, inherited=False).items()):
+        pairs = positional_pairings(fi.node)
+        params = [q for q in fi.params if q != "self"]
+        for sub, a, b in pairs:
+            n += 1
+            foreign, own = (b, a) if b in params else ((a, b) if a in params else (None, None))
+            if foreign is None:
+                ctx.holds(fi, sub, "%s: %s and %s are selections of objects of the accessor itself" % (name, a, b))
+                continue
+            # an alignment `foreign = <foreign...>.reindex(<own>.index)` as a statement of the method body before the first use
+            aligned = None
+            for st in fi.node.body:
+                if isinstance(st, ast.FunctionDef):
+                    continue
+                if isinstance(st, ast.Assign) and len(st.targets) == 1 and isinstance(st.targets[0], ast.Name) and \
+                        st.targets[0].id == foreign and isinstance(st.value, ast.Call) and isinstance(st.value.func, ast.Attribute) \
+                        and st.value.func.attr in ("reindex", "reindex_like") and st.value.args and \
+                        norm_text(st.value.args[0]) in (own + ".index", own) and \
+                        any(isinstance(x, ast.Name) and x.id == foreign for x in ast.walk(st.value.func.value)):
+                    aligned = st
+                    break
+                if any(x is sub for x in ast.walk(st)) or (isinstance(st, (ast.If, ast.Assign, ast.Return, ast.Expr)) and
+                                                            not isinstance(st, ast.FunctionDef) and
+                                                            any(isinstance(x, ast.Name) and x.id == foreign and isinstance(x.ctx, ast.Load)
+                                                                for x in ast.walk(st)) and
+                                                            any(isinstance(x, ast.Call) and isinstance(x.func, ast.Name) and
+                                                                x.func.id in {h.name for h in ast.walk(fi.node)
+                                                                              if isinstance(h, ast.FunctionDef)}
+                                                                for x in ast.walk(st))):
+                    break
+            if aligned is not None:
+                ctx.holds(fi, aligned, "%s: %s is re-indexed with %s.index before it is combined with its rows by position" %
+                          (name, foreign, own))
+            else:
+                ctx.violated(fi, sub, "%s: %s pairs the rows of %s with the values of %s by position, but %s (the transformed "
+                             "classes, in the row order of the broadcast) is never aligned with %s.index: for a matrix whose rows "
+                             "are not in that order the cycles are summed into the wrong classes" %
+                             (name, norm_text(sub)[:70], own, foreign, foreign, own), text="positional pairing %s %s/%s" % (name, a, b))
+    if n == 0:
+        ctx.holds(ci.key, None, "the histogram accessor combines nothing by position")
 
 
 NUMERIC_PARAMS = ("M", "M2", "M0", "M1", "M3", "M4", "R_goal", "R12", "R23", "amplitude", "meanstress", "N_c", "M_sigma")
@@ -874,6 +1001,26 @@ def variants():
         return f_
     out.append(witness("R12 / R23 de-duplicated independently before they are zipped", MP, dedup(True), "R-C12-2"))
     out.append(twin("single columns de-duplicated before the look-up", MP, dedup(False)))
+
+    def unaligned(tree):
+        f = find_func(tree, "MeanstressTransformMatrix._rebin_results")
+        for i, st in enumerate(f.body):
+            if isinstance(st, ast.Assign) and isinstance(st.value, ast.Call) and isinstance(st.value.func, ast.Attribute) and \
+                    st.value.func.attr == "reindex":
+                del f.body[i]
+                return True
+        return False
+    out.append(witness("transformed ranges not aligned with the rows of the matrix", MP, unaligned, "R-C12-8"))
+
+    def aligned_like(tree):
+        f = find_func(tree, "MeanstressTransformMatrix._rebin_results")
+        for st in f.body:
+            if isinstance(st, ast.Assign) and isinstance(st.value, ast.Call) and isinstance(st.value.func, ast.Attribute) and \
+                    st.value.func.attr == "reindex":
+                st.value = parse_expr("ranges.reindex_like(self._obj)")
+                return True
+        return False
+    out.append(twin("alignment through reindex_like", MP, aligned_like))
 
     def goal_const(tree):
         f = find_func(tree, "MeanstressTransformCollective.five_segment")
